@@ -25,6 +25,114 @@ func (p *Prog) execMethodCalls(fn *ssa.Function) []*ssa.Call {
 	return out
 }
 
+// entrySet: the exported entry points of package exec and the plain functions
+// of the package (no receiver, not exported, not option constructors) that
+// only they and their like call: a prologue shared by the entry points
+// (`run(ctx, path, value, opt) (*Executor, *valueList, error)`) belongs to
+// them.
+func (p *Prog) entrySet() map[*ssa.Function]bool {
+	set := map[*ssa.Function]bool{}
+	for _, n := range p.A.EntryOrder {
+		if f := p.ssaOf(p.A.Entry[n]); f != nil {
+			set[f] = true
+		}
+	}
+	for changed := true; changed; {
+		changed = false
+		for _, fn := range p.execFuncs() {
+			if set[fn] || fn.Signature.Recv() != nil || fn.Parent() != nil || fn.Object() == nil || fn.Object().Exported() || isOptionCtor(p, fn) {
+				continue
+			}
+			nd := p.CG.Nodes[fn]
+			if nd == nil || len(nd.In) == 0 {
+				continue
+			}
+			all := true
+			for _, e := range nd.In {
+				if !set[e.Caller.Func] {
+					all = false
+				}
+			}
+			if all {
+				set[fn] = true
+				changed = true
+			}
+		}
+	}
+	return set
+}
+
+// entryEval: the one evaluation call (a method of *Executor) an entry point
+// makes, in its own body or in the entry helper it calls; the list and error
+// it yields as seen in the entry point; whether it is started with the entry
+// point's own context and value.
+type entryEvalInfo struct {
+	call       *ssa.Call // the adapter call
+	host       *ssa.Function
+	res0, errV ssa.Value // in the entry point's value space
+	argsOK     bool
+	n          int
+}
+
+func (p *Prog) entryEval(fn *ssa.Function) entryEvalInfo {
+	calls := p.execMethodCalls(fn)
+	if len(calls) == 1 {
+		c := calls[0]
+		ok := len(c.Call.Args) == 3 && isParamNamed(c.Call.Args[1], fn) && isContextType(c.Call.Args[1].Type()) && isParamNamed(c.Call.Args[2], fn)
+		return entryEvalInfo{c, fn, extractOf(c, 0), extractOf(c, 1), ok, 1}
+	}
+	if len(calls) > 1 {
+		return entryEvalInfo{n: len(calls)}
+	}
+	set := p.entrySet()
+	var info entryEvalInfo
+	for _, hc := range p.allCalls(fn) {
+		h := hc.Call.StaticCallee()
+		if h == nil || !set[h] || h == fn {
+			continue
+		}
+		hcs := p.execMethodCalls(h)
+		if len(hcs) != 1 {
+			info.n += len(hcs)
+			continue
+		}
+		c := hcs[0]
+		info.n++
+		info.call, info.host = c, h
+		// arguments: the helper's own parameters, which the entry point fills
+		// with its own context and value
+		okArgs := len(c.Call.Args) == 3
+		for _, ai := range []int{1, 2} {
+			if !okArgs {
+				break
+			}
+			q, isParam := c.Call.Args[ai].(*ssa.Parameter)
+			if !isParam || q.Parent() != h {
+				okArgs = false
+				break
+			}
+			pi := paramIndex(q)
+			if pi >= len(hc.Call.Args) || !isParamNamed(hc.Call.Args[pi], fn) {
+				okArgs = false
+			}
+		}
+		info.argsOK = okArgs && isContextType(c.Call.Args[1].Type())
+		// results handed through
+		hres0, herr := extractOf(c, 0), extractOf(c, 1)
+		for _, r := range returnsOf(h) {
+			for j, rv := range r.Results {
+				if hres0 != nil && stripConvPlain(rv) == hres0 {
+					info.res0 = extractOf(hc, j)
+				}
+				if herr != nil && stripConvPlain(rv) == herr {
+					info.errV = extractOf(hc, j)
+				}
+			}
+		}
+	}
+	return info
+}
+
 func isParamNamed(v ssa.Value, fn *ssa.Function) bool {
 	q, ok := v.(*ssa.Parameter)
 	return ok && q.Parent() == fn
@@ -55,14 +163,25 @@ func listLenOf(v ssa.Value, name string) (ssa.Value, bool) {
 		return loadOfField(c.Call.Args[0], name)
 	}
 	h := c.Call.StaticCallee()
-	if h == nil || !inModule(h) || len(h.Blocks) != 1 || len(h.Params) != 1 || len(c.Call.Args) != 1 {
+	if h == nil || !inModule(h) || len(h.Blocks) > 4 || len(h.Params) != 1 || len(c.Call.Args) != 1 || h.Signature.Results().Len() != 1 {
 		return nil, false
 	}
-	r, ok := h.Blocks[0].Instrs[len(h.Blocks[0].Instrs)-1].(*ssa.Return)
-	if !ok || len(r.Results) != 1 {
+	// every return is the length of the parameter's list, or the constant 0
+	// where the parameter is nil (a nil-tolerant accessor)
+	nlen := 0
+	for _, r := range expandedReturns(h) {
+		if base, ok := listLenOf(r.Results[0], name); ok && base == ssa.Value(h.Params[0]) {
+			nlen++
+			continue
+		}
+		if k, isC := constInt(r.Results[0]); isC && k == 0 {
+			if isNil, _ := nilFact(r.Facts, h.Params[0]); isNil {
+				continue
+			}
+		}
 		return nil, false
 	}
-	if base, ok := listLenOf(r.Results[0], name); ok && base == ssa.Value(h.Params[0]) {
+	if nlen > 0 {
 		return c.Call.Args[0], true
 	}
 	return nil, false
@@ -78,19 +197,20 @@ var ruleEntry = &Rule{
 			fns[n] = p.ssaOf(p.A.Entry[n])
 		}
 		adapter := map[string]*ssa.Call{}
+		evals := map[string]entryEvalInfo{}
 		for _, n := range p.A.EntryOrder {
 			fn := fns[n]
-			calls := p.execMethodCalls(fn)
+			ev := p.entryEval(fn)
 			key := "exec." + n + " runs one evaluation"
-			if len(calls) != 1 {
-				out.viol(key, p.pos(fn.Pos()), fnName(fn), fmt.Sprintf("%d evaluation calls (expected exactly one)", len(calls)))
+			if ev.n != 1 || ev.call == nil {
+				out.viol(key, p.pos(fn.Pos()), fnName(fn), fmt.Sprintf("%d evaluation calls (expected exactly one)", ev.n))
 				continue
 			}
-			c := calls[0]
+			c := ev.call
 			adapter[n] = c
+			evals[n] = ev
 			// arguments: (fresh exec, ctx param, value param)
-			okArgs := len(c.Call.Args) == 3 && isParamNamed(c.Call.Args[1], fn) && isContextType(c.Call.Args[1].Type()) && isParamNamed(c.Call.Args[2], fn)
-			if okArgs {
+			if ev.argsOK {
 				out.ok(key, p.pos(c.Pos()), fnName(fn), "calls "+c.Call.StaticCallee().Name()+" with its own context and value")
 			} else {
 				out.viol(key, p.pos(c.Pos()), fnName(fn), "the evaluation is not started with the caller's context and value")
@@ -177,10 +297,9 @@ var ruleEntry = &Rule{
 			}
 		}
 		// post-processing tables
-		p.entryReturns(out, "Query", fns["Query"], adapter["Query"])
-		p.entryReturns(out, "First", fns["First"], adapter["First"])
-		p.entryReturns(out, "Exists", fns["Exists"], adapter["Exists"])
-		p.entryReturns(out, "Match", fns["Match"], adapter["Match"])
+		for _, n := range []string{"Query", "First", "Exists", "Match"} {
+			p.entryReturns(out, n, fns[n], adapter[n], evals[n])
+		}
 
 		// ExistsOrMatch
 		if eom := p.ssaFunc(pkgPath, "*Path.ExistsOrMatch"); eom != nil {
@@ -194,7 +313,24 @@ var ruleEntry = &Rule{
 			}
 			good := predCall != nil
 			nM, nE := 0, 0
-			for _, b := range eom.Blocks {
+			// the dispatch may sit in a helper of the package that is handed the
+			// answer of IsPredicate (`path.check(ctx, path.IsPredicate(), json, opt)`)
+			disp := eom
+			var condV ssa.Value = predCall
+			if predCall != nil {
+				for _, c := range p.allCalls(eom) {
+					h := c.Call.StaticCallee()
+					if h == nil || fnPkgPath(h) != pkgPath || h.Blocks == nil || h == eom {
+						continue
+					}
+					for i, a := range c.Call.Args {
+						if a == ssa.Value(predCall) && i < len(h.Params) {
+							disp, condV = h, h.Params[i]
+						}
+					}
+				}
+			}
+			for _, b := range disp.Blocks {
 				for _, ins := range b.Instrs {
 					c, ok := ins.(*ssa.Call)
 					if !ok || c.Call.StaticCallee() == nil {
@@ -213,7 +349,7 @@ var ruleEntry = &Rule{
 					}
 					hit := false
 					for _, f := range factsAt(b) {
-						if f.Cond == ssa.Value(predCall) && f.Truth == want {
+						if f.Cond == condV && f.Truth == want {
 							hit = true
 						}
 					}
@@ -245,6 +381,16 @@ var ruleEntry = &Rule{
 				nfw++
 				var missing []string
 				for _, q := range fn.Params[1:] {
+					// what an entry point takes: the context, the value, the options
+					switch t := q.Type().Underlying().(type) {
+					case *types.Interface:
+					case *types.Slice:
+						if nt, ok := t.Elem().(*types.Named); !ok || nt.Obj().Name() != "Option" {
+							continue
+						}
+					default:
+						continue
+					}
 					found := false
 					for _, a := range c.Call.Args {
 						if a == ssa.Value(q) {
@@ -261,6 +407,41 @@ var ruleEntry = &Rule{
 				} else {
 					out.viol(key, p.pos(c.Pos()), fnName(fn), "the wrapper does not pass on "+strings.Join(missing, ", ")+": options such as WithSilent, WithVars or WithTZ (or the caller's context or value) never reach the executor on this route")
 				}
+			}
+		}
+		// … and answer with what the entry point answered
+		for fn := range p.AllFns {
+			if fnPkgPath(fn) != pkgPath || fn.Blocks == nil || fn.Signature.Recv() == nil || len(fn.Params) < 2 {
+				continue
+			}
+			wraps := false
+			for _, c := range p.allCalls(fn) {
+				if p.entryBehind(c.Call.StaticCallee(), fns) != "" {
+					wraps = true
+				}
+			}
+			if !wraps {
+				continue
+			}
+			bad := ""
+			for _, r := range expandedReturns(fn) {
+				for _, v := range r.Results {
+					c, _ := callOf(v)
+					if c == nil {
+						if cc, ok := stripConvPlain(v).(*ssa.Call); ok {
+							c = cc
+						}
+					}
+					if (c == nil || (p.entryBehind(c.Call.StaticCallee(), fns) == "" && fnPkgPath(c.Call.StaticCallee()) != pkgPath)) && bad == "" {
+						bad = p.pos(r.Instr.Pos())
+					}
+				}
+			}
+			key := fnName(fn) + " answers with the entry point's results"
+			if bad == "" {
+				out.ok(key, p.pos(fn.Pos()), fnName(fn), "every return hands back the results of the wrapped call")
+			} else {
+				out.viol(key, p.pos(fn.Pos()), fnName(fn), "the return at "+bad+" answers without (or with something other than) the results of the entry point it wraps: the wrapper can disagree with the function it stands for")
 			}
 		}
 		out.Counts["wrapper_calls_of_entry_points"] = nfw
@@ -476,13 +657,17 @@ func (p *Prog) neverEvaluates(c *ssa.Call) bool {
 	return false
 }
 
-func (p *Prog) entryReturns(out *RuleOut, name string, fn *ssa.Function, ad *ssa.Call) {
+func (p *Prog) entryReturns(out *RuleOut, name string, fn *ssa.Function, ad *ssa.Call, ev entryEvalInfo) {
 	if fn == nil || ad == nil {
 		return
 	}
-	res0, errV := extractOf(ad, 0), extractOf(ad, 1)
+	res0, errV := ev.res0, ev.errV
 	seen := map[string]bool{}
-	for _, r := range p.virtualReturns(fn, ad.Call.StaticCallee(), 0) {
+	except := ad.Call.StaticCallee()
+	if ev.host != nil && ev.host != fn {
+		except = ev.host
+	}
+	for _, r := range p.virtualReturns(fn, except, 0) {
 		fs := r.Facts
 		v, e := r.Results[0], r.Results[1]
 		isNil, notNil := nilFact(fs, errV)
